@@ -64,6 +64,86 @@ def cases():
     return [(Shape(f), [(Shape(k), Shape(v)) for k, v in m]) for f, m in out]
 
 
+def interp_cases():
+    """(formula, interpretations {f: (formals, body)}): f applied to rewritten actuals is replaced by the body
+    with the formals bound, in order, to those actuals."""
+    x, y, z = S("x", INT), S("y", INT), S("z", INT)
+    p, q = S("p", INT), S("q", INT)
+    a = S("a")
+    one = ("lit", 1, INT)
+    F2 = ("f", INT, (INT, INT))
+    G1 = ("g", INT, (INT,))
+    P1 = ("pr", BOOL, (INT,))
+
+    def f(s, t):
+        return ("fun",) + F2 + (s, t)
+
+    def g(s):
+        return ("fun",) + G1 + (s,)
+
+    def pr(s):
+        return ("fun",) + P1 + (s,)
+    out = [
+        (("Equals", f(x, y), z), {F2: ([p, q], ("Minus", p, q))}),                      # order of the formals matters
+        (("Equals", f(y, x), z), {F2: ([p, q], ("Minus", p, q))}),
+        (("Equals", f(g(x), y), z), {F2: ([p, q], ("Plus", p, ("Times", q, ("lit", 2, INT))))}),   # g left alone
+        (("Equals", f(g(x), y), z), {G1: ([p], ("Plus", p, one))}),                   # inner only
+        (("Equals", f(g(x), g(y)), z), {G1: ([p], ("Plus", p, one)), F2: ([p, q], ("Minus", p, q))}),  # nested: actuals rewritten first
+        (("And", pr(f(x, x)), a), {P1: ([p], ("LT", p, one)), F2: ([q, p], ("Minus", p, q))}),
+        (("LT", g(g(x)), y), {G1: ([p], ("Times", p, ("lit", 2, INT)))}),
+        (("Equals", f(x, y), f(y, x)), {F2: ([p, q], p)}),                               # projection
+    ]
+    return [(Shape(fm), ip) for fm, ip in out]
+
+
+def _ref_interp(w, n, interps):
+    """reference: bottom-up; an application of an interpreted symbol becomes body[formals := rewritten actuals]"""
+    op = w.opname(n)
+    new_args = tuple(_ref_interp(w, a, interps) for a in w.nargs(n))
+    if op == "FUNCTION":
+        fsym = w.npayload(n) if not isinstance(w.npayload(n), tuple) else w.npayload(n)
+        for fs, (formals, body) in interps.items():
+            if fs is fsym or (w.is_node(fsym) and w.node_eq(fs, fsym)):
+                return ref_subst(w, body, dict(zip(formals, new_args)), "mg")
+    if new_args == tuple(w.nargs(n)):
+        return n
+    return w.mk_node(w.ntype(n), new_args, w.npayload(n))
+
+
+def _interp_job(job):
+    cls, shape, ip = job
+    FI = "pysmt.substituter.FunctionInterpretation"
+
+    def call(w, it, f):
+        sub = w.new_walker(cls, w.env)
+        w.env.attrs["_substituter"] = sub
+        interps, ref = {}, {}
+        for (name, ret, params), (formals, body) in ip.items():
+            fs = w.symbol(name, ("FUN", ret, tuple(params)))
+            fo = [proc.build_shape(w, x) for x in formals]
+            bo = proc.build_shape(w, body)
+            interps[fs] = w.new_walker(FI, fo, bo)
+            ref[fs] = (fo, bo)
+        return (ref, it.call(it.getattr(sub, "substitute"), [f], {"interpretations": interps}))
+
+    def post(w, f, r, facts):
+        ref, res = r
+        if not w.is_node(res):
+            return proc.ProcResult(shape, "unsupported", "substitute returned %r" % (res,))
+        exp = _ref_interp(w, f, ref)
+        rs = sc.node_str(w, res)
+        if exp is not res:
+            v = sc.validate(w, exp, res, facts, repr(shape))
+            if v.kind != "valid":
+                return proc.ProcResult(shape, "invalid", "applying the interpretations to the rewritten actuals, formals "
+                                       "bound in order, gives %s (%s)" % (sc.node_str(w, exp), v.detail), rs)
+        return proc.ProcResult(shape, "valid", "= body[formals := rewritten actuals]", rs)
+    res = proc.run_proc(shape, call, post=post, services=True)
+    istr = "{%s}" % ", ".join("%s(%s) := %s" % (k[0], ", ".join(proc.shape_str(x) for x in v[0]), proc.shape_str(v[1]))
+                              for k, v in ip.items())
+    return [(cls.split(".")[-1], "%r with %s" % (shape, istr), r.kind, str(r.detail), r.result) for r in res]
+
+
 def _job(job):
     cls, shape, mp = job
     mode = "mg" if cls == MG else "ms"
@@ -119,7 +199,8 @@ def run(ctx):
     for shape, mp in cases():
         jobs.append((MG, shape, mp))
         jobs.append((MS, shape, mp))
-    for res in parallel_map(_job, jobs):
+    ijobs = [(c, shape, ip) for shape, ip in interp_cases() for c in (MG, MS)]
+    for res in parallel_map(_job, jobs) + parallel_map(_interp_job, ijobs):
         for name, case, kind, detail, result in res:
             if kind == "valid":
                 rs.ok({"substituter": name, "case": case, "result": result})
